@@ -56,7 +56,7 @@ var familyWeights = []struct {
 	{"engine", "contact-missing-fields", 4}, {"engine", "mix", 14},
 	{"migrate", "mix", 6}, {"migrate", "legacy-corpus", 3}, {"clone", "mix", 4}, {"clone", "overlapping-mapping", 5}, {"query", "mix", 5},
 	{"xobject", "mix", 4}, {"xobject", "casevariant-get", 3},
-	{"definition", "invalid-headers", 3},
+	{"definition", "invalid-headers", 3}, {"engine", "asset-order", 6},
 	{"services", "dtone-two-currencies", 2}, {"services", "luis-intent-ties", 2}, {"services", "luis-distinct-scores", 2}, {"services", "wit-entity-roles", 2},
 }
 
@@ -89,7 +89,11 @@ func buildScenarios(seed uint64, n int) []*scenario {
 		case "inspect":
 			s = inspectScenario(g, fw.feature, i)
 		case "engine":
-			s = engineScenario(g, fw.feature, i)
+			if fw.feature == "asset-order" {
+				s = assetOrderScenario(g, i)
+			} else {
+				s = engineScenario(g, fw.feature, i)
+			}
 		case "migrate":
 			if fw.feature == "legacy-corpus" && len(corpus) == 0 {
 				continue
